@@ -83,6 +83,10 @@ func (p *httpPlugin) Handle(ctx context.Context, op string, content any) (*Respo
 	if err := p.do(ctx, r, &res); err != nil {
 		return nil, nil, err
 	}
+	// A JSON null resets res.Content to a nil interface: a response that claims a change must carry the new content.
+	if !res.Reject && !res.Unchange && res.Content == nil {
+		return nil, nil, fmt.Errorf("plugin response has no content")
+	}
 	return &res, res.Content, nil
 }
 
